@@ -529,6 +529,63 @@ fn main() {
     }
     let mut res = results.lock().unwrap();
     res.sort_by_key(|r| r.0);
+    // Fault legs: a verdict must not depend on how long the machine stalled a worker thread (every
+    // wait of the replayer is a deadline). A failing run is re-executed alone, twice, with four
+    // times the patience; only the violation classes seen in EVERY execution are reported. A run
+    // that conforms when re-executed is counted as unstable, not as a violation.
+    let mut unstable = 0u64;
+    if opts.faults {
+        let patient = Opts { threads: 1, seed: opts.seed, sample: 0, wait_ms: opts.wait_ms * 4, verbose: false,
+                             index_base: opts.index_base + 47_000, faults: true };
+        let mut retried: BTreeMap<String, u64> = BTreeMap::new();
+        let mut todo: Vec<(usize, Vec<Viol>)> = Vec::new();
+        for (i, vs) in res.drain(..) {
+            // the report shows at most three runs per class: re-execute those, drop the rest
+            let wanted = vs.iter().any(|v| retried.get(&v.class).copied().unwrap_or(0) < 3);
+            if !wanted {
+                continue;
+            }
+            for v in &vs {
+                *retried.entry(v.class.clone()).or_insert(0) += 1;
+            }
+            todo.push((i, vs));
+        }
+        let lines_ref = &lines;
+        let patient_ref = &patient;
+        let outcomes: Vec<(usize, Vec<Viol>)> = std::thread::scope(|sc| {
+            let handles: Vec<_> = todo
+                .into_iter()
+                .enumerate()
+                .map(|(slot, (i, vs))| {
+                    sc.spawn(move || {
+                        let mut classes: Vec<String> = vs.iter().map(|v| v.class.clone()).collect();
+                        for attempt in 0..2u64 {
+                            let mut stats = Stats::default();
+                            let idx = (slot as u64) * 2 + attempt;
+                            let again = catch_unwind(AssertUnwindSafe(|| run_one(idx, &lines_ref[i], patient_ref, port, &mut stats)))
+                                .unwrap_or_else(|e| vec![Viol { class: "harness-panic".to_string(), detail: json!({"panic": vh::util::panic_message(e)}) }]);
+                            classes.retain(|c| again.iter().any(|v| &v.class == c));
+                            if classes.is_empty() {
+                                break;
+                            }
+                        }
+                        (i, vs.into_iter().filter(|v| classes.contains(&v.class)).collect::<Vec<Viol>>())
+                    })
+                })
+                .collect();
+            handles.into_iter().map(|h| h.join().expect("retry thread")).collect()
+        });
+        let mut kept: Vec<(usize, Vec<Viol>)> = Vec::new();
+        for (i, stable) in outcomes {
+            if stable.is_empty() {
+                unstable += 1;
+            } else {
+                kept.push((i, stable));
+            }
+        }
+        kept.sort_by_key(|r| r.0);
+        *res = kept;
+    }
     let mut n_viol = 0;
     let mut classes: BTreeMap<String, u64> = BTreeMap::new();
     for (i, vs) in res.iter() {
@@ -554,7 +611,7 @@ fn main() {
         "aborted": ENOUGH.load(Ordering::SeqCst), "violations": n_viol, "classes": classes,
         "requests": totals[0].load(Ordering::Relaxed), "responses": totals[1].load(Ordering::Relaxed),
         "probes": totals[2].load(Ordering::Relaxed), "hook_events": totals[3].load(Ordering::Relaxed),
-        "soft_stops": totals[4].load(Ordering::Relaxed), "hooked": hooked, "skipped": SKIPPED.load(Ordering::SeqCst),
+        "soft_stops": totals[4].load(Ordering::Relaxed), "hooked": hooked, "skipped": SKIPPED.load(Ordering::SeqCst), "unstable": unstable,
         "open_fds": std::fs::read_dir("/proc/self/fd").map(|d| d.count()).unwrap_or(0),
         "wall_s": t0.elapsed().as_secs_f64(), "samples": samples,
     }));
